@@ -19,6 +19,7 @@ from __future__ import annotations
 
 import hashlib
 import json
+from concurrent.futures import ThreadPoolExecutor
 
 from vlib import loader, tlc
 
@@ -71,6 +72,12 @@ def _convert(T, x, rec):
     rec["w"] = tv.abstract(H, out)
 
 
+def replay(ctx, rp):
+    wd = tlc.prepare_dir(ctx.build / "tlc", ["fn"])
+    tv.replay_pair(ctx, wd, rp, wire="encoding", convert=_convert, verdict_module="PyEncodingVerdict",
+                   template={"vin": dict(tv.NA), "bytes": []})
+
+
 def run(ctx):
     H = tv.load()
     # ---- fingerprints of the transcribed Scala text (information, not a verdict) --------------------------------
@@ -91,15 +98,19 @@ def run(ctx):
     (wd / "extra.ndjson").write_text(json.dumps({"t": {"k": "int32"}}) + "\n")
 
     # ---- (1) the layout on its own: Dec(Enc(v)) = v, all bytes consumed, truncation rejected --------------------
-    out = tlc.evaluate(wd, "PyEncodingSelf", env=env, timeout=3000)
-    if '"encodingself"' not in out:
-        raise RuntimeError("PyEncodingSelf did not reach the end of EncodingSelf")
+    # (runs concurrently with the enumeration below: two independent TLC processes; joined before any verdict is used)
+    pool = ThreadPoolExecutor(max_workers=1)
+    selfcheck = pool.submit(tlc.evaluate, wd, "PyEncodingSelf", env=env, timeout=3000)
 
     # ---- (2)-(4) Gen, the real code, Verdict (round trip + layout) -------------------------------------------
     cases, verdict, stats = tv.roundtrip_check(
         ctx, wd, wire="encoding", convert=_convert, level=level, with_nd=True, nextra=25 if ctx.quick else 200,
         verdict_module="PyEncodingVerdict", template={"vin": dict(tv.NA), "bytes": []}, top_level_missing=False,
         stride=2 if ctx.quick else 1)
+    out = selfcheck.result()
+    pool.shutdown()
+    if '"encodingself"' not in out:
+        raise RuntimeError("PyEncodingSelf did not reach the end of EncodingSelf")
     for b in verdict["bad"]:
         if b["why"] == "harness":
             raise RuntimeError(f"harness built a different value than TLC enumerated: {cases[b['i'] - 1]}")
